@@ -89,7 +89,7 @@ func render(m proto.Message) (s string) {
 
 func setup() {
 	c := ev.C()
-	c.Rule = "a server pre-loaded with a generated valid RIB (possibly with held operations) and with a second, idle session receives one message: (i) constructed invalid operations, one class each (nil key message, nil payload, zero id/index, zero/missing group, empty group, zero member index, invalid prefix, out-of-range and aliasing label, empty/unknown network instance, unknown group network instance, operation type 0/99, no entry); (ii) 1-3 structural mutations (clear sub-message, zero scalar, duplicate/drop keyed list element, undefined enum number, invalid UTF-8, boundary integer, empty/junk string, populate unset sub-message) of valid full-field operations; (iii) malformed Get/Flush requests. Oracle: no panic (the operation is first applied to a twin RIB under recover; a process crash is reported by the driver with the in-flight case), no hang, exactly one in-band result or a clean RPC error on that session only, the idle session sees nothing and then wins an election and programs an entry; (i): rejected and RIB contents, held set and counters identical before/after; (ii): if rejected identical, if accepted the change is confined to the operation's key (plus keys of previously held operations), held set grows by at most its id, counters equal referrers of the new contents and Get(ALL) succeeds. Non-trivial = the message differs from a valid parent (or is a constructed invalid class) and reached the rib code (known network instance, correctly stamped); distinct by FNV-64 of the case JSON."
+	c.Rule = "a server pre-loaded with a generated valid RIB (possibly with held operations) and with a second, idle session receives one message: (i) constructed invalid operations, one class each (nil key message, nil payload, zero id/index, zero/missing group, empty group, zero member index, invalid prefix, out-of-range and aliasing label, empty/unknown network instance, unknown group network instance, operation type 0/99, no entry); (ii) 1-3 structural mutations (clear sub-message, zero scalar, duplicate/drop keyed list element, undefined enum number, invalid UTF-8, boundary integer, empty/junk string, populate unset sub-message) of valid full-field operations; (iii) malformed Get/Flush requests. Oracle: no panic (the operation is first applied to a twin RIB under recover; a process crash is reported by the driver with the in-flight case), no hang, exactly one in-band result or a clean RPC error on that session only, the idle session sees nothing and then wins an election and programs an entry; (i): rejected and RIB contents, held set and counters identical before/after; (ii): if rejected identical, if accepted the change is confined to the operation's key (plus keys of previously held operations), held set grows by at most its id, counters equal referrers of the new contents and Get(ALL) succeeds. Non-trivial = the message differs from a valid parent (or is a constructed invalid class) and reached the rib code (known network instance, correctly stamped); distinct by FNV-64 of the case JSON. Later additions: schema-only invalid classes (metadata > 8 bytes, malformed addresses, label out of range), long-bytes mutator, zero member index in wide groups (8-257 members)."
 	c.Assumptions = []string{"in-process streams carry messages that gRPC's codec would refuse (invalid UTF-8); they are still required not to crash the server"}
 }
 
